@@ -18,7 +18,7 @@ HTTP_ERRORS = None  # filled from http_exceptions.py
 # they do not make a rejection conditional on message content
 DISPATCH = [
     ("self._chunk == $S", True), ("self._chunk == $S", False), ("self._type == $S", True), ("self._type == $S", False),
-    ("self._payload_parser is None", True), ("self._upgraded", False), ("$L", True),  # `while line:` loop variable (bare name)
+    ("self._payload_parser is None", True), ("self._upgraded", False), ("line", True),  # `while line:` loop variable
     ("pos < 0", True), ("pos < 0", False), ("$D.find($S, $P) < $Q", True), ("$D.find($S, $P) < $Q", False), ("$D.find($A, $B, $C) < 0", False), ("$D.find($A, $B, $C) < 0", True),
     ("self._lines[-1] == $E", True), ("self._trailer_lines[-1] == $E", True), ("self._chunk_tail", True),
     ("self._should_close", False),
